@@ -280,6 +280,26 @@ def runSpec (st : St) (q : Stmt) (having : List HTok) : String :=
     (`xob=`, `xgb=`, `xlim=`), not as the parser's hooks recorded them: a hook that distorts them is
     then visible as a contradiction with the reference. -/
 def withIntent (ws : List String) (q : Stmt) : Stmt :=
+  let q := match kv ws "xc" with
+    | some v => match listOf ";" parseClause v with
+      | some cs => { q with clauses := cs }
+      | none => q
+    | none => q
+  let q := match kv ws "xg" with
+    | some v => match listOf "," hexStr v with
+      | some gs => { q with graphs := gs }
+      | none => q
+    | none => q
+  let q := match kv ws "xp" with
+    | some v => match listOf ";" parseProj v with
+      | some ps => { q with projs := ps }
+      | none => q
+    | none => q
+  let q := match kv ws "xlo", kv ws "xhi" with
+    | some lo, some hi => match parseTimeP lo, parseTimeP hi with
+      | some lo, some hi => { q with lower := lo, upper := hi }
+      | _, _ => q
+    | _, _ => q
   let q := match kv ws "xob" with
     | some v => match listOf "," (fun x => match x.splitOn ":" with
         | [b, d] => do pure (← hexStr b, d == "1")
